@@ -227,6 +227,16 @@ def answer (A : Answerer) (st : St) (toks : List String) : Option String := do
     let sg ← st.segs[(← s.toNat?)]?
     let (a, b, c) := A.stats sg (← parseBytes f)
     pure s!"{a} {b} {c}"
+  | ["statsmerge", ss, f] =>
+    let idxs ← (ss.splitOn ",").mapM (·.toNat?)
+    let sgs ← idxs.mapM (fun i => st.segs[i]?)
+    let f ← parseBytes f
+    let each := sgs.map (fun sg => A.stats sg f)
+    let tot := each.foldl (fun (a : Nat × Nat × Nat) b => (a.1 + b.1, a.2.1 + b.2.1, a.2.2 + b.2.2)) (0, 0, 0)
+    let show3 := fun (x : Nat × Nat × Nat) => s!"{x.1} {x.2.1} {x.2.2}"
+    -- the accumulator IS the first segment's object, so after merging the first segment's own
+    -- answer is unchanged only because every call hands out a fresh object
+    pure (" | ".intercalate (show3 tot :: each.map show3))
   | "match" :: s :: pairs =>
     let sg ← st.segs[(← s.toNat?)]?
     let ds := A.docsMatching sg (← pairs.mapM parsePair)
